@@ -186,7 +186,21 @@ func (p *clientStreamProcessorFMP4) processSegment(ctx context.Context, seg *seg
 		leadingTimeConvFMP4(p.client).setLeadingNTPReceived()
 	}
 
+	// track processors signal the completion of every part track through chPartTrackProcessed,
+	// that is read after all part tracks have been pushed: it must be able to hold all of them
 	partTrackCount := 0
+	for _, part := range parts {
+		for _, partTrack := range part.Tracks {
+			if _, ok := p.trackProcessors[partTrack.ID]; ok {
+				partTrackCount++
+			}
+		}
+	}
+	if partTrackCount > cap(p.chPartTrackProcessed) {
+		p.chPartTrackProcessed = make(chan struct{}, partTrackCount)
+	}
+
+	partTrackCount = 0
 
 	for _, part := range parts {
 		for _, partTrack := range part.Tracks {
